@@ -35,6 +35,10 @@ pub struct MultiNodeTaskAssignment {
     // For example for MPI application, HQ starts "mpirun" on a root node and HQ
     // does no other action other nodes expect ensuring that nothing else is running there.
     pub is_root: bool,
+
+    // True if the (root) worker has already announced that the task is running,
+    // i.e. the start of the task was reported to the client.
+    pub is_running: bool,
 }
 
 #[derive(Debug)]
@@ -133,7 +137,18 @@ impl Worker {
 
     pub fn set_mn_task(&mut self, task_id: TaskId, is_root: bool) {
         assert!(self.is_free());
-        self.assignment = WorkerAssignment::Mn(MultiNodeTaskAssignment { task_id, is_root });
+        self.assignment = WorkerAssignment::Mn(MultiNodeTaskAssignment {
+            task_id,
+            is_root,
+            is_running: false,
+        });
+    }
+
+    pub fn set_mn_task_running(&mut self) {
+        match &mut self.assignment {
+            WorkerAssignment::Sn(_) => unreachable!(),
+            WorkerAssignment::Mn(a) => a.is_running = true,
+        }
     }
 
     pub fn has_mn_task(&self) -> bool {
